@@ -275,6 +275,10 @@ def heightsub_unit(run, runs, prefixes, procs=4):
     if bad.error or "HeightMonotone" not in (bad.violated or ""):
         raise vlib.Inconclusive("self-test: HeightSub.tla without the compare-and-swap loop was not refuted (%s)" % (bad.error or bad.violated))
     run.cov["heightsub_selftest"] = "variant without the CAS loop refuted: HeightMonotone violated after %d states" % bad.generated
+    live = vlib.tlc(pid, "hs_live", "HeightSub", "HeightSubLive.cfg", workers=4, timeout=1500,
+                    constants={"MaxH": 2 if quick else 3, "MaxG": 2 if quick else 3})
+    vlib.require_tlc_ok(live, "HeightSub.tla liveness")
+    run.add_tlc("HeightSub.tla EventuallyReturns under weak fairness of every goroutine's steps (2 setters, 1 waiter)", live)
     obs = vlib.tlc(pid, "hs_init", "HeightSub", "HeightSubInit.cfg", workers=4, timeout=1200)
     if obs.error or "OkWasAvailable" not in (obs.violated or ""):
         raise vlib.Inconclusive("HeightSub.tla with Init calls: the recorded observation (OkWasAvailable refuted) did not show (%s)" % (obs.error or obs.violated))
